@@ -1260,6 +1260,12 @@ def build_model(
                 + '\n'.join('    {x}' for x in failed_execs)
             ) from e
 
+        # Each `Symbol` `exec`utes on its own but not together with the
+        # others: still an error (not to return a class for just one of them)
+        raise BuildError(
+            f'Failed to `exec`ute the model definition as a whole: {e.msg}'
+        ) from e
+
     # Otherwise, if here, assign the original code to an attribute and return
     # the class
     locals_['Model'].CODE = model_definition_string
